@@ -55,6 +55,7 @@ def demo(n):
 
 FEATURES = False
 SHELL_DEMO = None
+OWN_PROP = None
 
 def run_checks():
     # the generators' source-derived dictionary, from the (patched) scratch tree - as run.sh does for /repo
@@ -64,7 +65,11 @@ def run_checks():
     if r.returncode:
         return {"build_error": r.stderr[-2000:]}
     res = {}
-    for p in PROPS:
+    only = os.environ.get("SE_CHECKS")   # e.g. "own" (the property the change breaks) or "C01,C04"
+    props = PROPS
+    if only:
+        props = [OWN_PROP] if only == "own" else [x for x in only.split(",") if x in PROPS]
+    for p in props:
         env = dict(os.environ, VERIF_DIR=OUT, VERIF_SEED="1")
         binary = "dv_http" if p == "C20" else "dv_check"
         t = time.time()
@@ -111,7 +116,8 @@ def main():
     if os.environ.get("SE_OWN_ONLY") and os.path.exists(f"/verif/seeded/{sid}/meta.json"):
         return own_only(outdir, n, sid)
     patch = f"{outdir}/patch{n}.diff"; demo_src = f"{outdir}/demo{n}.rs"; meta_src = f"{outdir}/meta{n}.json"
-    global FEATURES, SHELL_DEMO
+    global FEATURES, SHELL_DEMO, OWN_PROP
+    OWN_PROP = sid[:3]
     FEATURES = sid.startswith("C20")
     if os.path.exists(f"{outdir}/demo{n}.sh"):
         SHELL_DEMO = outdir
